@@ -99,6 +99,7 @@ type FnCtx struct {
 	obNames    map[string]int
 	entry      *State
 	heapSort   map[string]string // heap key -> cell sort
+	heapType   map[string]types.Type
 	depth      int
 	quiet      int // >0: suppress obligations (spec evaluation of Go functions)
 	assump     map[string]bool
@@ -109,6 +110,7 @@ type FnCtx struct {
 	curFrame   *Frame
 	pkg        *ssa.Package
 	trusted    map[string]bool
+	bounded    map[string]bool
 	ghostFuncs map[string]ghostFn
 	stack      []*ssa.Function
 }
@@ -135,6 +137,8 @@ type Frame struct {
 	params      map[string]SVal
 	names       map[string]ssa.Value // debug names (last def)
 	sigOverride *types.Signature
+	debugRefs   map[string][]ssa.Value
+	lastRet     *ssa.Return
 	addrNames   map[string]ssa.Value // names of address-taken variables -> their address
 	prefix      string
 }
@@ -162,6 +166,25 @@ func (fx *FnCtx) oblige(kind, name, text string, st *State, goal Term, pos token
 	if fx.quiet > 0 {
 		return
 	}
+	// split top-level conjunctions so that a failure names the conjunct
+	if (kind == "post" || kind == "inv-init" || kind == "inv-pres" || kind == "pre@call") && strings.HasPrefix(goal, "(and ") {
+		if parts := splitSexp(goal[5 : len(goal)-1]); len(parts) > 1 {
+			for i, p := range parts {
+				fx.oblige(kind, fmt.Sprintf("%s.%d", name, i+1), text, st, p, pos, props)
+			}
+			return
+		}
+	}
+	if (kind == "post" || kind == "inv-init" || kind == "inv-pres" || kind == "pre@call") && strings.HasPrefix(goal, "(=> ") {
+		if ps := splitSexp(goal[4 : len(goal)-1]); len(ps) == 2 && strings.HasPrefix(ps[1], "(and ") {
+			if parts := splitSexp(ps[1][5 : len(ps[1])-1]); len(parts) > 1 {
+				for i, p := range parts {
+					fx.oblige(kind, fmt.Sprintf("%s.%d", name, i+1), text, st, "(=> "+ps[0]+" "+p+")", pos, props)
+				}
+				return
+			}
+		}
+	}
 	if goal == "true" || st.guard == "false" {
 		// trivially discharged; still count it (solver-free)
 		goal = "true"
@@ -182,6 +205,75 @@ func (fx *FnCtx) oblige(kind, name, text string, st *State, goal Term, pos token
 	fx.s.assume(st.guard, goal)
 }
 
+// splitSexp splits a sequence of s-expressions at top level
+func splitSexp(s string) []string {
+	var out []string
+	depth := 0
+	start := -1
+	inStr := false
+	inBar := false
+	for i := 0; i < len(s); i++ {
+		c := s[i]
+		if inStr {
+			if c == '"' {
+				inStr = false
+				if depth == 0 && start >= 0 {
+					if i+1 < len(s) && s[i+1] == '"' {
+						inStr = true
+						i++
+						continue
+					}
+					out = append(out, s[start:i+1])
+					start = -1
+				}
+			}
+			continue
+		}
+		if inBar {
+			if c == '|' {
+				inBar = false
+			}
+			continue
+		}
+		switch c {
+		case '"':
+			inStr = true
+			if depth == 0 && start < 0 {
+				start = i
+			}
+		case '|':
+			inBar = true
+			if depth == 0 && start < 0 {
+				start = i
+			}
+		case '(':
+			if depth == 0 && start < 0 {
+				start = i
+			}
+			depth++
+		case ')':
+			depth--
+			if depth == 0 && start >= 0 {
+				out = append(out, s[start:i+1])
+				start = -1
+			}
+		case ' ', '\t', '\n':
+			if depth == 0 && start >= 0 {
+				out = append(out, s[start:i])
+				start = -1
+			}
+		default:
+			if depth == 0 && start < 0 {
+				start = i
+			}
+		}
+	}
+	if start >= 0 {
+		out = append(out, s[start:])
+	}
+	return out
+}
+
 func (fx *FnCtx) topName() string {
 	if fx.top != nil {
 		return fx.eng.relName(fx.top)
@@ -199,9 +291,49 @@ func (fx *FnCtx) heap(st *State, key, sort string) Term {
 	fx.heapSort[key] = sort
 	name := fmt.Sprintf("H|%s|@%s", strings.NewReplacer("|", "_", "\\", "_").Replace(key), st.base)
 	name = "|" + strings.ReplaceAll(name, "|", "_") + "|"
-	fx.s.declare(name, "(Array Ref "+sort+")")
+	if !fx.s.declared[name] {
+		fx.s.declare(name, "(Array Ref "+sort+")")
+		if st.base == "0" {
+			fx.entryHeapWF(key, name)
+		}
+	}
 	st.heaps[key] = name
 	return name
+}
+
+// entryHeapWF: every pointer stored in the heap at function entry was allocated before entry.
+func (fx *FnCtx) entryHeapWF(key, h string) {
+	t, ok := fx.heapType[key]
+	if !ok {
+		return
+	}
+	var facts []Term
+	var walk func(t types.Type, v Term, depth int)
+	walk = func(t types.Type, v Term, depth int) {
+		if depth > 3 {
+			return
+		}
+		switch u := types.Unalias(t).Underlying().(type) {
+		case *types.Pointer, *types.Map:
+			facts = append(facts, fmt.Sprintf("(<= (obj %s) alloc0)", v))
+		case *types.Slice:
+			facts = append(facts, fmt.Sprintf("(<= (sobj %s) alloc0)", v))
+		case *types.Struct:
+			if isTimeTime(t) {
+				facts = append(facts, fmt.Sprintf("(<= (obj (t_loc %s)) alloc0)", v))
+				return
+			}
+			si := fx.tm.structInfo(t)
+			for _, f := range si.Fields {
+				walk(f.Type, "("+f.Sel+" "+v+")", depth+1)
+			}
+			_ = u
+		}
+	}
+	walk(t, "(select "+h+" r)", 0)
+	if len(facts) > 0 {
+		fx.s.assumeClosed(fmt.Sprintf("(forall ((r Ref)) (! %s :pattern ((select %s r))))", and(facts...), h))
+	}
 }
 
 func (fx *FnCtx) setHeap(st *State, key, sort string, h Term) {
@@ -540,7 +672,11 @@ func (fr *Frame) run(args []Val, bindings []Val, st *State) ([]Val, *State) {
 	if len(fr.rets) == 0 {
 		return nil, nil
 	}
-	return fr.mergeRets()
+	vals, out := fr.mergeRets()
+	if fr.top {
+		fr.atReturn(fr.lastRet, vals, out)
+	}
+	return vals, out
 }
 
 func (fr *Frame) edgeGuard(p, b *ssa.BasicBlock) (Term, *State) {
@@ -867,32 +1003,7 @@ func (fr *Frame) enterLoop(li *loopInfo, pre *State) *State {
 	// 3. havoc
 	hs := pre.clone()
 	mod := fx.eng.loopModset(fr.fn, li)
-	if mod.top {
-		for k := range fx.heapSort {
-			mod.keys[k] = true
-		}
-		hs.base = fx.s.fresh("lb")
-		hs.heaps = map[string]Term{}
-	}
-	for _, k := range sortedKeys(mod.keys) {
-		srt, ok := fx.heapSort[k]
-		if !ok {
-			continue // never touched so far; lazily created symbol is unconstrained anyway
-		}
-		old := fx.heap(pre, k, srt)
-		h := fx.s.freshConst("Hl", "(Array Ref "+srt+")")
-		hs.heaps[k] = h
-		// cells allocated after loop entry are unconstrained; cells that existed keep a relation only via invariants.
-		_ = old
-	}
-	for k := range hs.ghost {
-		if mod.top || mod.ghost[k] {
-			hs.ghost[k] = fx.s.freshConst("ghost_"+k, fx.ghostSort(k))
-		}
-	}
-	na := fx.s.freshConst("alloc", "Int")
-	fx.s.assume("true", "(>= "+na+" "+pre.alloc+")")
-	hs.alloc = na
+	fx.havocHeaps(hs, mod)
 	for _, ins := range b.Instrs {
 		phi, ok := ins.(*ssa.Phi)
 		if !ok {
@@ -985,6 +1096,8 @@ func (fr *Frame) backEdge(from *ssa.BasicBlock, li *loopInfo, st *State) {
 		sv := fr.evalSpec(decr.E, st, li)
 		fx.oblige("variant", fmt.Sprintf("%s/variant/loop%d", name, li.ordinal), decr.Text, st,
 			fmt.Sprintf("(and (<= 0 %s) (< %s %s))", li.variant, sv.v.t, li.variant), b.Instrs[0].Pos(), []string{"C05"})
+	} else if bname, ok := fr.boundedLoop(li); ok {
+		fx.bounded[fmt.Sprintf("termination of loop %d of %s: bounded stand-in %q", li.ordinal, fr.obName(), bname)] = true
 	} else if li.rangeIx == nil && !fr.loopIsRange(li) && fr.top {
 		// a non-range loop without a variant: termination not shown
 		fx.oblige("variant", fmt.Sprintf("%s/variant/loop%d", name, li.ordinal), "missing decreases clause", st, "false", b.Instrs[0].Pos(), []string{"C05"})
@@ -992,6 +1105,14 @@ func (fr *Frame) backEdge(from *ssa.BasicBlock, li *loopInfo, st *State) {
 	for phi, v := range saved {
 		fr.env[phi] = v
 	}
+}
+
+func (fr *Frame) boundedLoop(li *loopInfo) (string, bool) {
+	if fr.fc == nil {
+		return "", false
+	}
+	n, ok := fr.fc.Bounded[li.ordinal]
+	return n, ok
 }
 
 func (fr *Frame) loopIsRange(li *loopInfo) bool {
@@ -1019,7 +1140,7 @@ func (fr *Frame) props() []string {
 }
 
 func (fx *FnCtx) ghostSort(k string) string {
-	return "Opaque"
+	return ghostSortOf(k)
 }
 
 func (fx *FnCtx) havocVal(prefix string, t types.Type, st *State) Val {
@@ -1191,7 +1312,19 @@ func (fr *Frame) execInstr(ins ssa.Instruction, st *State) {
 		elem := x.Type().Underlying().(*types.Pointer).Elem()
 		ref := fx.allocRef(st, "1")
 		refName := fx.s.define(x.Name(), "Ref", ref)
-		fx.store(st, &Loc{base: refName, cell: elem}, tm.zero(elem))
+		if arr, ok := elem.Underlying().(*types.Array); ok {
+			key, srt := tm.heapKey(arr.Elem())
+			h := fx.heap(st, key, srt)
+			if arr.Len() > 64 {
+				unsupported("large array allocation")
+			}
+			for i := int64(0); i < arr.Len(); i++ {
+				h = fmt.Sprintf("(store %s (mkref (obj %s) %d) %s)", h, refName, i, tm.zero(arr.Elem()))
+			}
+			fx.setHeap(st, key, srt, h)
+		} else {
+			fx.store(st, &Loc{base: refName, cell: elem}, tm.zero(elem))
+		}
 		fr.env[x] = Val{t: refName}
 		if x.Comment != "" {
 			fr.addrNames[x.Comment] = x
@@ -1255,7 +1388,9 @@ func (fr *Frame) execInstr(ins ssa.Instruction, st *State) {
 		mi := tm.mapInfo(mt)
 		ref := fx.s.define(x.Name(), "Ref", fx.allocRef(st, "1"))
 		h := fx.heap(st, mi.HeapKey, mi.Sort)
-		empty := fmt.Sprintf("(%s ((as const (Array %s Bool)) false) ((as const (Array %s %s)) %s))", mi.Ctor, mi.KeySort, mi.KeySort, mi.ValSort, tm.zero(mt.Elem()))
+		mv0 := "mapval0_" + sanitize(mi.Sort)
+		fx.s.global(mv0, fmt.Sprintf("(declare-fun %s () (Array %s %s))", mv0, mi.KeySort, mi.ValSort))
+		empty := fmt.Sprintf("(%s ((as const (Array %s Bool)) false) %s)", mi.Ctor, mi.KeySort, mv0)
 		fx.setHeap(st, mi.HeapKey, mi.Sort, "(store "+h+" "+ref+" "+empty+")")
 		fr.env[x] = Val{t: ref}
 	case *ssa.MakeSlice:
@@ -1332,10 +1467,8 @@ func (fr *Frame) execInstr(ins ssa.Instruction, st *State) {
 			vals = append(vals, fr.val(r))
 		}
 		rs := st.clone()
-		if fr.top {
-			fr.atReturn(x, vals, rs)
-		}
 		fr.rets = append(fr.rets, retInfo{guard: st.guard, vals: vals, st: rs})
+		fr.lastRet = x
 	case *ssa.Panic:
 		fr.safety("safe:panic", ins, "panic", st, "false")
 		st.guard = "false"
@@ -1370,6 +1503,11 @@ func (fr *Frame) execUnOp(x *ssa.UnOp, st *State) {
 	fx := fr.fx
 	switch x.Op {
 	case token.MUL:
+		if g, ok := x.X.(*ssa.Global); ok && g.Pkg.Pkg.Path() == "time" && g.Name() == "UTC" {
+			fx.trusted["time.UTC is a non-nil *Location that nobody reassigns"] = true
+			fr.env[x] = Val{t: "time_UTC"}
+			return
+		}
 		pv := fr.val(x.X)
 		fr.nilCheck(x, x.X, pv, st)
 		elem := x.X.Type().Underlying().(*types.Pointer).Elem()
@@ -1812,7 +1950,13 @@ func (fx *FnCtx) unbox(iv Term, t types.Type) Term {
 func (fr *Frame) execTypeAssert(x *ssa.TypeAssert, st *State) {
 	fx := fr.fx
 	iv := fr.val(x.X).t
-	if _, ok := x.AssertedType.Underlying().(*types.Interface); ok {
+	if ai, ok := x.AssertedType.Underlying().(*types.Interface); ok {
+		// assertion to an interface the static type already satisfies: a non-nil check
+		if !x.CommaOk && types.Implements(x.X.Type(), ai) {
+			fr.safety("safe:typeassert", x, fr.describe(x), st, not(eq(iv, "niliface")))
+			fr.env[x] = Val{t: iv}
+			return
+		}
 		unsupported("type assertion to interface type")
 	}
 	tag := fx.tm.typeTag(x.AssertedType)
